@@ -357,7 +357,7 @@ class Runner:
             res['status'] = 'vacuous'
             res['detail'] = 'vacuity guard: sentinel assertion after the call is %s (must be FAILURE = reachable)' % sentinel
             return res
-        if npost == 0:
+        if npost == 0 and not has_fail:     # (after a fatal FAILURE CBMC reports the later obligations UNKNOWN and they were dropped above: that is a failure, not vacuity)
             res['status'] = 'vacuous'
             res['detail'] = 'vacuity guard: no postcondition obligation generated for %s' % u.enforce
             return res
